@@ -30,10 +30,10 @@ class OperatorAdd(OperatorBase):
         left, right = tokens.get_left(), tokens.get_right()
         if left is None and isinstance(right, tokens.atom):
             tokens.put_left(right)        
-        elif isinstance(right, OperatorAdd):
+        elif not isinstance(left, tokens.atom) and isinstance(right, OperatorAdd):
             tokens.put_left(left)
             tokens.put_right(right)
-        elif isinstance(right, OperatorSub):
+        elif not isinstance(left, tokens.atom) and isinstance(right, OperatorSub):
             tokens.put_left(left)
             tokens.put_right(right)
         elif not isinstance(left, tokens.atom) and isinstance(right, tokens.atom):
@@ -56,10 +56,10 @@ class OperatorSub(OperatorBase):
         left, right = tokens.get_left(), tokens.get_right()
         if left is None and isinstance(right, tokens.atom):
             tokens.put_left(-right)
-        elif isinstance(right, OperatorAdd):
+        elif not isinstance(left, tokens.atom) and isinstance(right, OperatorAdd):
             tokens.put_left(left)
             tokens.put_right(OperatorSub())
-        elif isinstance(right, OperatorSub):
+        elif not isinstance(left, tokens.atom) and isinstance(right, OperatorSub):
             tokens.put_left(left)
             tokens.put_right(OperatorAdd())
         elif not isinstance(left, tokens.atom) and isinstance(right, tokens.atom):
